@@ -349,6 +349,35 @@ def main(tier, seed, replay=None):
     for p in problems:
         run.tie("proof gate", p)
     drv = build_driver()
+    if replay:
+        # a recorded case of one of the line suites (fs, pathparts, dumb, task): that case alone, implementation against model
+        rp = json.load(open(replay))
+        rp = rp.get("replay") or (rp.get("no_longer_checks") or [{}])[0].get("detail", {})
+        suite, case = rp.get("suite"), rp.get("case")
+        if suite in ("fs", "pathparts", "dumb", "task") and case:
+            har, out = build_harness()
+            if har is None:
+                run.tie("harness build", out[-2000:])
+                return run.finish()
+            impl, model, bad = differential(run, "replayed case of suite %s" % suite, har, drv, suite, suite, [case])
+            if suite == "fs":
+                cwd_h, tree_s, ops_s = [x.strip() for x in case.split(";")]
+                cwd = [c for c in unhexs(cwd_h).decode("latin-1").split("/") if c]
+                tree, meta = {}, []
+                for e in tree_s.split(","):
+                    w = e.split()
+                    if w:
+                        tree[tuple(unhexs(w[1]).decode("latin-1").split("/"))] = None if w[0] == "D" else unhexs(w[2] if len(w) > 2 else "-")
+                for o in ops_s.split(","):
+                    w = o.split()
+                    if w and w[0] == "D":
+                        meta.append(("D", [unhexs(x) for x in w[1:]]))
+                    elif w:
+                        meta.append(("R", unhexs(w[1]), unhexs(w[2])))
+                fs_monitor(run, case, (cwd, tree, meta), impl[0])
+            run.coverage.update(info)
+            run.coverage.update({"replayed_suite": suite, "implementation": impl[0][:300], "model": model[0][:300]})
+            return run.finish()
     n2, out = build_n2_binary()
     if n2 is None:
         run.tie("n2 build", out[-2000:])
